@@ -45,9 +45,10 @@ func c16Set(rs []c16Rule) ref.RuleSet {
 }
 
 var (
-	c16Init = []c16Rule{{"a", 3, "a-v0"}, {"b", 2, "b-v0"}}
-	c16A    = []c16Rule{{"a", 3, "a-vA"}, {"b", 2, "b-vA"}, {"c", 1, "c-vA"}}
-	c16B    = []c16Rule{{"b", 5, "b-vB"}, {"d", 0, "d-vB"}}
+	c16Init  = []c16Rule{{"a", 3, "a-v0"}, {"b", 2, "b-v0"}}
+	c16A     = []c16Rule{{"a", 3, "a-vA"}, {"b", 2, "b-vA"}, {"c", 1, "c-vA"}}
+	c16B     = []c16Rule{{"b", 5, "b-vB"}, {"d", 0, "d-vB"}}
+	c16Batch = []c16Rule{{"a", -1, "a-i4"}, {"b", 7, "b-i5"}, {"f", 4, "f-i6"}}
 )
 
 type c16Op struct {
@@ -85,6 +86,13 @@ var c16Ops = []c16Op{
 		return gp.UpdatePooledRulesIncremental(c16Text([]c16Rule{{"b", 9, "b-i3"}}))
 	}, func(s *c16Ref) bool {
 		s.Set, s.Cleared = ref.Merge(s.Set, c16Set([]c16Rule{{"b", 9, "b-i3"}})), false
+		return true
+	}},
+	// one incremental call that moves two existing rules past each other and adds a third between them
+	{"Incr(a down, b up, new f)", func(gp *engine.GenginePool) error {
+		return gp.UpdatePooledRulesIncremental(c16Text(c16Batch))
+	}, func(s *c16Ref) bool {
+		s.Set, s.Cleared = ref.Merge(s.Set, c16Set(c16Batch)), false
 		return true
 	}},
 	{"Remove(a)", func(gp *engine.GenginePool) error { return gp.RemoveRules([]string{"a"}) },
@@ -353,13 +361,13 @@ func init() {
 		BudgetQuick: 300 * time.Second,
 		BudgetThor:  30 * time.Minute,
 		Kind:        "cases",
-		Rule: "every sequence of length <=4 on pool (1,2) and <=3 on pool (2,3) (thorough <=5 resp. <=4) over 13 management operations {full update A (3 rules), full update B (2 rules, one shared name, other salience), incremental: new rule / existing name same salience / existing name new salience, remove existing, remove absent, remove a list mixing existing and absent names, clear, SetExecModel(concurrent), SetExecModel(invalid), incremental with syntax error, full update with syntax error} from pools (1,2) and (2,3) - no state merging: the pool object is cloned at every node of the sequence tree; " +
+		Rule: "every sequence of length <=4 on pool (1,2) and <=3 on pool (2,3) (thorough <=5 resp. <=4) over 14 management operations {full update A (3 rules), full update B (2 rules, one shared name, other salience), incremental: new rule / existing name same salience / existing name new salience / one call moving two existing rules past each other and adding a third, remove existing, remove absent, remove a list mixing existing and absent names, clear, SetExecModel(concurrent), SetExecModel(invalid), incremental with syntax error, full update with syntax error} from pools (1,2) and (2,3) - no state merging: the pool object is cloned at every node of the sequence tree; " +
 			"after EVERY prefix: all queries (IsExist, GetRulesNumber, GetRuleSalience, GetRuleDesc, GetExecModel) and executions forced onto EVERY instance (max requests held inside their first rule simultaneously, under the controlled scheduler) are compared with the reference rule set / model; failed operations change nothing; no step panics",
 		Assume: []string{"pool states are cloned with gx.DeepClone (compiled rules shared: immutable)", "removing every rule (without clear) demands only that no rule runs"},
 		Run: func(c *hx.Ctx) {
 			d12, d23 := 4, 3
 			if c.Thorough() {
-				d12, d23 = 5, 4 // 13^5 + 13^4 sequences; one level more does not finish in half an hour
+				d12, d23 = 5, 4 // 14^5 + 14^4 sequences; one level more does not finish in half an hour
 			}
 			c16Explore(c, 1, 2, d12)
 			c16Explore(c, 2, 3, d23)
